@@ -31,7 +31,7 @@ import (
 // C03 — no byte string from a peer can crash or exhaust a decoder or protocol step.
 type c03 struct{ base }
 
-func init() { core.Register(c03{base{"C03", "fault_enumeration", 96, 2400}}) }
+func init() { core.Register(c03{base{"C03", "fault_enumeration", 600, 20000}}) }
 
 func (c03) Describe() core.Description {
 	return core.Description{
